@@ -17,7 +17,7 @@ PROP = dict(
         dict(module="Handout", cfg="MC_Handout_asbuilt.cfg", tiers=("thorough",)),
         dict(module="Handout", cfg="MC_Handout_thorough.cfg", tiers=("thorough",))],
     trace=dict(module="HandoutTrace", cfg="HandoutTrace.cfg"),
-    chunk_lines=2500,
+    chunk_lines=2500, max_rejections=10,
     nontrivial=_nontrivial,
     min_nontrivial=10,
     rule="seeded histories of 25-55 steps against the real tracker HTTP handler (GET /announce and POST /announce/{infohash}) "
